@@ -10,7 +10,7 @@ for d in ds:
     if pat and not pat.search(d):
         continue
     pid, m = d.split("-")
-    p = subprocess.run([sys.executable, os.path.join(VERIF, "tools", "seed.py"), pid, m, "--skip-confirm"], capture_output=True, text=True)
+    p = subprocess.run([sys.executable, os.path.join(VERIF, "tools", "seed.py"), pid, m, "--skip-confirm", "--fast"], capture_output=True, text=True)
     try:
         t = p.stdout
         meta = json.loads(t[t.index("{"):t.rindex("}") + 1])
